@@ -9,6 +9,11 @@ def cmd(pid, tier):
 
 # id -> (category, engine, technique, level text, level note, design ref)
 CHECKS = {
+ "C06": ("model_checking", "SCHED",
+   "stateless DFS over all release orders of peer actions and puppet-handler steps on real in-memory WebSocket connections; interval-rule (linearizability-style) monitor against a reference set of active subscriptions and a slot counter",
+   "Caps 0..2, 1-2 connections; peer scripts {subscribe x(cap+1...), unsubscribe own live / repeated / other connection's / never issued / wrong JSON type, close frame, abrupt drop, subscribe again after endings} x handler scripts {hold, return, reject, drop pending, watch closed(), clone + drop one clone}; whole tree when <= 10k (thorough 400k) executions, else <= 2 (thorough 3) deviations. Every unsubscribe answer must equal the reference 'active' value at some trace position between request and answer; every -32006 refusal must be justified by a full connection during the call; the slot count never exceeds the cap; is_closed() of a held sink equals not-active.",
+   "active = accepted (accept() returned to the handler) and not unsubscribed and connection open (on_session_closed unresolved) and handler holds >= 1 sink; preemption only at points.",
+   "DESIGN.md §6 C06"),
  "C04": ("model_checking", "SCHED",
    "stateless DFS over all release orders of peer actions, puppet-handler steps, stop() and the library's cfg points on real in-memory WebSocket connections; trace monitor",
    "Scenarios = peer scripts {subscribe, unsubscribe own/foreign, call, close frame, abrupt drop} x handler scripts {accept, reject, drop pending, send, try_send, is_closed, closed().await, clone, return none/error/close message} x stop x point masks (harness only / subscription-sink points / all server points), 1-2 connections, 1-2 subscriptions; whole tree when <= 15k (thorough 400k) executions, else <= 2 (thorough 3) deviations. Monitor: every notification frame carries a subscription id accepted on that connection and the right method name, comes after the accepting response, payloads are a prefix of the handler's successful sends in order, rejected/never-accepted subscriptions produce nothing, at most one closing notification, and after the server-exposed close instant (unsubscribe true seen by the peer / on_session_closed / stopped) every later-started send fails and is_closed() is true.",
